@@ -544,6 +544,22 @@ def run(check):
       r_b.violate('%s lookup' % mname, m, bis, '%s does not look the key up with bisect_left(self.ring, '
                   '(compute_ring_position(key), ())) %% self.ring_len' % mname, construct='%s lookup' % mname)
 
+  # ------------------------------------------------------------------ routing reads the ring as it is now
+  from .c05 import rule_pure
+  r_rp = check.rule('R-C06-route-pure', 3, 'a routing decision depends only on the key and the current membership (no memo of earlier '
+                    'decisions on the router): routing after any history equals that of a fresh relay with the same destinations')
+  rcls = repo.cls('carbon.routers', 'ConsistentHashingRouter')
+  fns_ = [f for f in (rcls.methods.get('getDestinations'), repo.cls('carbon.routers', 'AggregatedConsistentHashingRouter').methods.get('getDestinations'),
+                      ring_class(check).methods.get('get_nodes'), ring_class(check).methods.get('get_node')) if f is not None]
+  # helpers the router's getDestinations delegates to (same class)
+  for f in list(fns_):
+    if f.cls is not None:
+      for c in walk_no_nested(f.node, include_self=False):
+        if isinstance(c, ast.Call) and isinstance(c.func, ast.Attribute) and dotted(c.func.value) == 'self' and c.func.attr in f.cls.methods and \
+           f.cls.methods[c.func.attr] not in fns_:
+          fns_.append(f.cls.methods[c.func.attr])
+  rule_pure(check, r_rp, fns_)
+
   # ------------------------------------------------------------------ dynamic membership
   r_d = check.rule('R-C06-dynamic', 2, 'a destination going down/up changes routing only through the router')
   fac = repo.cls('carbon.client', 'CarbonClientFactory')
@@ -560,3 +576,23 @@ def run(check):
     else:
       r_d.violate('%s bypasses the router' % mname, m, (direct or [None])[0], '%s does not change membership (only) through '
                   'self.router.%s' % (mname, meth), construct='self.router.%s' % meth)
+  # every (re)connection is announced to the router, and the one-shot connectionMade Deferred is re-armed each time
+  ccm = fac.methods.get('clientConnectionMade')
+  if ccm is None:
+    r_d.cannot_decide('CarbonClientFactory.clientConnectionMade not found')
+  else:
+    gcc = cx.cfg(ccm)
+    ups = set(nodes_calling(gcc, lambda c: isinstance(c.func, ast.Attribute) and c.func.attr == 'destinationUp' and dotted(c.func.value) == 'self'))
+    rearm = set(nodes_calling(gcc, lambda c: isinstance(c.func, ast.Attribute) and c.func.attr in ('addCallbacks', 'addCallback') and
+                              dotted(c.func.value) == 'self.connectionMade' and c.args and dotted(c.args[0]) == 'self.clientConnectionMade'))
+    known = lambda a, lab, b: isinstance(lab, tuple) and lab[0] == 'T' and 'hasDestination' in unparse(lab[1])   # noqa: E731
+    if not rearm or gcc.exit in gcc.reach([gcc.entry], removed_nodes=rearm, normal_only=True):
+      r_d.violate('reconnect not re-armed', ccm, None, 'clientConnectionMade can return without registering itself on the new '
+                  'self.connectionMade Deferred: the next reconnect of this destination is never announced, so a destination that '
+                  'was removed while down is connected again but never put back on the ring', construct='self.connectionMade.addCallbacks(self.clientConnectionMade, ...)')
+    elif not ups or gcc.exit in gcc.reach([gcc.entry], removed_nodes=ups, removed_edge=known, normal_only=True):
+      r_d.violate('reconnect not announced', ccm, None, 'clientConnectionMade can return without destinationUp() (or having found the '
+                  'destination on the ring)', construct='self.destinationUp(client.destination)')
+    else:
+      r_d.ok('every reconnect calls destinationUp and re-arms connectionMade', ccm.loc())
+
